@@ -80,6 +80,25 @@ Theorem C19_filter_is_wmean : forall l, 0 < sumw l -> filter_band l == wmean l.
 Proof. exact filter_is_wmean. Qed.
 Print Assumptions C19_filter_is_wmean.
 
+(* the weight expression regenerated from the source (pixel width post-processing and product with the response) *)
+Theorem C19_weights_nonneg : forall fitted resp, 0 <= resp -> 0 <= filter_weight (filter_logdiff fitted) resp.
+Proof. exact weights_nonneg. Qed.
+Print Assumptions C19_weights_nonneg.
+
+Theorem C19_weight_is_spec : forall fitted resp, filter_weight (filter_logdiff fitted) resp == weight_S fitted resp.
+Proof. exact weight_is_spec. Qed.
+Print Assumptions C19_weight_is_spec.
+
+(* from the raw ingredients (fitted d log lambda of either sign, response >= 0, flux): within the flux range; 0 without overlap *)
+Theorem C19_filter_thru_band_bounds : forall lo hi l, resp_nonneg l -> flux_within3 lo hi l -> 0 < sumw (band_pairs l) ->
+  lo <= filter_thru_band l <= hi.
+Proof. exact filter_thru_band_bounds. Qed.
+Print Assumptions C19_filter_thru_band_bounds.
+
+Theorem C19_filter_thru_band_no_overlap : forall l, resp_nonneg l -> sumw (band_pairs l) <= 0 -> filter_thru_band l == 0.
+Proof. exact filter_thru_band_no_overlap. Qed.
+Print Assumptions C19_filter_thru_band_no_overlap.
+
 (* values of masked pixels do not enter, whatever interpolation fills them from the unmasked ones *)
 Theorem C19_filter_mask_indep : forall (interp : list (Z * Q) -> Z -> Q) ws fl fl',
   Forall2 agree fl fl' ->
@@ -96,5 +115,5 @@ Print Assumptions C19_wmean_ok_sound.
 (* non-vacuity *)
 Example C19_witness_air : Qred (vactoair_Q (2000 # 1)) = (2757481878800000000 # 1379187366458949).
 Proof. vm_compute. reflexivity. Qed.
-Example C19_witness_band : filter_band [(1 # 2, 3 # 1); (1 # 2, 5 # 1)] == 4.
+Example C19_witness_band : filter_thru_band [((-1) # 2, 1 # 1, 3 # 1); (1 # 2, 1 # 1, 5 # 1)] == 4.
 Proof. vm_compute. reflexivity. Qed.
